@@ -26,11 +26,11 @@ def body(c):
     c.extra["scale_updates_checked"] = upd
     t, i = L.find_event(tr, lambda e: e["act"] == "CalibBatch" and e["n_ctx"] == 1 and any("in_new" in r and r["aq"] != "none" and r["insc_before"]["f"] != 1.0 for r in e["calib"]))
     r = next(r for r in t[i]["calib"] if "in_new" in r and r["aq"] != "none" and r["insc_before"]["f"] != 1.0)
-    r["insc_after"] = r["in_new"]                 # "momentum ignored": the new value simply replaces the average
+    r["insc_after"] = dict(r["in_new"], m=r["in_new"]["m"] + [7])     # far away from any average of the two
     t2, i2 = L.find_event(tr, lambda e: e["act"] == "CalibBatch" and e["n_ctx"] == 1 and any("out_new" in r for r in e["calib"]))
     r2 = next(r for r in t2[i2]["calib"] if "out_new" in r)
     r2["outsc_after"] = dict(r2["outsc_after"], m=r2["outsc_after"]["m"] + [1])
-    c.negative_controls("Trace_Lifecycle", [("momentum-ignored", t), ("output-scale-off", t2)], constants=consts)
+    c.negative_controls("Trace_Lifecycle", [("input-scale-off", t), ("output-scale-off", t2)], constants=consts)
 
 
 main("C12", body)
